@@ -15,6 +15,9 @@ Mechanical behaviour-preserving rewrites of the WHOLE package (negative controls
   nestand   if a and b: X            ->  if a: if b: X                    (no else)
   intuple   x == 'a' or x == 'b'     ->  x in ('a', 'b')
   typeself  x.__class__              ->  type(x)
+  ternary   if c: x = A else: x = B   ->  x = A if c else B      (also for two returns)
+  extract   return F(G(..), ..)      ->  arg_ = G(..); return F(arg_, ..)
+  inline    x = E; S(x)              ->  S(E)       (single-assignment, single-use local read in the next statement)
   all       every mode above, one after the other"""
 import ast, os, sys, shutil
 
@@ -271,10 +274,94 @@ class TypeSelf(ast.NodeTransformer):
         return n
 
 
+class Ternary(ast.NodeTransformer):
+    """if c: x = A else: x = B   ->   x = A if c else B       (both arms a single assignment to the same plain name)
+       if c: return A else: return B   ->   return A if c else B"""
+    def visit_If(self, n):
+        self.generic_visit(n)
+        if len(n.body) == 1 and len(n.orelse) == 1:
+            a, b = n.body[0], n.orelse[0]
+            if isinstance(a, ast.Assign) and isinstance(b, ast.Assign) and len(a.targets) == 1 and len(b.targets) == 1 and \
+                    isinstance(a.targets[0], ast.Name) and isinstance(b.targets[0], ast.Name) and a.targets[0].id == b.targets[0].id:
+                return ast.Assign(targets=[a.targets[0]], value=ast.IfExp(test=n.test, body=a.value, orelse=b.value))
+            if isinstance(a, ast.Return) and isinstance(b, ast.Return) and a.value is not None and b.value is not None:
+                return ast.Return(value=ast.IfExp(test=n.test, body=a.value, orelse=b.value))
+        return n
+
+
+class Extract(ast.NodeTransformer):
+    """return F(G(..), ..)  ->  arg_ = G(..); return F(arg_, ..)    (the first positional argument of a returned call, when it is a call itself)"""
+    def _block(self, stmts):
+        out = []
+        for st in stmts:
+            if isinstance(st, ast.Return) and isinstance(st.value, ast.Call) and st.value.args and isinstance(st.value.args[0], ast.Call):
+                out.append(ast.Assign(targets=[ast.Name(id='arg_', ctx=ast.Store())], value=st.value.args[0]))
+                st.value.args[0] = ast.Name(id='arg_', ctx=ast.Load())
+            out.append(st)
+        return out
+
+    def generic_visit(self, n):
+        super().generic_visit(n)
+        if isinstance(n, ast.Lambda):
+            return n
+        for fld in ('body', 'orelse', 'finalbody'):
+            v = getattr(n, fld, None)
+            if isinstance(v, list) and v and isinstance(v[0], ast.stmt):
+                setattr(n, fld, self._block(v))
+        return n
+
+
+class Inline(ast.NodeTransformer):
+    """x = E; S(x)  ->  S(E)   for a local assigned once in the function, read exactly once, in the very next statement, E free of calls
+    with side effects as far as can be seen (names, attributes, subscripts, arithmetic, calls of module functions)"""
+    def visit_FunctionDef(self, fn):
+        self.generic_visit(fn)
+        stores, loads = {}, {}
+        for x in ast.walk(fn):
+            if isinstance(x, ast.Name):
+                d = stores if isinstance(x.ctx, ast.Store) else loads
+                d[x.id] = d.get(x.id, 0) + 1
+        params = {a.arg for a in fn.args.args + fn.args.kwonlyargs}
+
+        def block(stmts):
+            out = []
+            i = 0
+            while i < len(stmts):
+                st = stmts[i]
+                nxt = stmts[i + 1] if i + 1 < len(stmts) else None
+                if isinstance(st, ast.Assign) and len(st.targets) == 1 and isinstance(st.targets[0], ast.Name) and nxt is not None and \
+                        isinstance(nxt, (ast.Return, ast.Assign, ast.Expr)) and not isinstance(st.value, (ast.List, ast.ListComp, ast.Lambda, ast.Dict)):
+                    nm = st.targets[0].id
+                    uses = [y for y in ast.walk(nxt) if isinstance(y, ast.Name) and y.id == nm and isinstance(y.ctx, ast.Load)]
+                    in_comp = any(isinstance(c, (ast.ListComp, ast.GeneratorExp, ast.Lambda)) and any(y is uses[0] for y in ast.walk(c)) for c in ast.walk(nxt)) if uses else True
+                    if nm not in params and stores.get(nm, 0) == 1 and loads.get(nm, 0) == 1 and len(uses) == 1 and not in_comp and \
+                            not any(isinstance(t, (ast.Subscript, ast.Attribute)) and any(y is uses[0] for y in ast.walk(t)) for t in getattr(nxt, 'targets', [])):
+                        class R(ast.NodeTransformer):
+                            def visit_Name(s2, y):
+                                return st.value if y is uses[0] else y
+                        out.append(R().visit(nxt))
+                        i += 2
+                        continue
+                out.append(st)
+                i += 1
+            return out
+
+        def rec(node):
+            for fld in ('body', 'orelse', 'finalbody'):
+                v = getattr(node, fld, None)
+                if isinstance(v, list) and v and isinstance(v[0], ast.stmt):
+                    setattr(node, fld, block(v))
+                    for ch in getattr(node, fld):
+                        if not isinstance(ch, (ast.FunctionDef, ast.ClassDef)):
+                            rec(ch)
+        rec(fn)
+        return fn
+
+
 MODES = {'ifswap': lambda s: IfSwap(), 'early': lambda s: Early(), 'matmul': lambda s: MatMul(), 'transpose': lambda s: Transpose(),
          'tmp': lambda s: Tmp(), 'kw2pos': lambda s: Kw2Pos(s), 'pos2kw': lambda s: Pos2Kw(s), 'neq': lambda s: Neq(), 'elif': lambda s: Elif(),
          'comp2loop': lambda s: Comp2Loop(), 'isinst': lambda s: IsInst(), 'nestand': lambda s: NestAnd(), 'intuple': lambda s: InTuple(),
-         'typeself': lambda s: TypeSelf()}
+         'typeself': lambda s: TypeSelf(), 'ternary': lambda s: Ternary(), 'extract': lambda s: Extract(), 'inline': lambda s: Inline()}
 
 if os.path.exists(dst):
     shutil.rmtree(dst)
